@@ -272,6 +272,14 @@ class MapToMolecule(Processor):
                     raise IOError(MultiblockError.format(self.node_to_block[node]))
 
                 correspondence = new_mol.merge_molecule(block)
+                # the residue ids follow from the residue graph and not from the
+                # numbering the block has or the merge comes up with (a block may
+                # number its residues from any value, and the residue ids of the
+                # graph need not be consecutive)
+                block_resids = nx.get_node_attributes(block, "resid")
+                resid_offset = resid_dict[node] - min(block_resids.values())
+                for block_node, mol_node in correspondence.items():
+                    new_mol.nodes[mol_node]["resid"] = block_resids[block_node] + resid_offset
             # make the residue from the correspondence
             residue = _correspondence_to_residue(meta_molecule,
                                                  new_mol,
